@@ -155,6 +155,7 @@ class SV:
     """A typed symbolic value: z3 term of sort Val plus a static type tag."""
     t: object
     ty: Ty = ANY
+    aux: object = None       # immutable sequences: (items array term, length term) known at creation
 
     def __repr__(self):
         return f"SV({self.t}:{self.ty})"
